@@ -78,13 +78,40 @@ def sites():
                 out.append(("state.rs:init:existing_db_inherited_runid", "Deferred"))
             else:
                 raise Broken("src/state.rs: cannot find the start-up transaction of ProcessState::init")
-    if re.search(r"db\.transaction\(\)", s):
-        out.append(("state.rs:init:create_db", "Deferred"))
+    # the branch that creates the database: the else-block of `if !must_create { ... } else { ... }`
+    k = s.find("if !must_create {")
+    if k < 0:
+        raise Broken("src/state.rs: cannot find the must_create test of ProcessState::init")
+    def block(start):
+        depth, i = 0, s.index("{", start)
+        j = i
+        while True:
+            if s[j] == "{":
+                depth += 1
+            elif s[j] == "}":
+                depth -= 1
+                if depth == 0:
+                    return i, j
+            j += 1
+    a, b = block(k)
+    m2 = re.match(r"\s*else\s*\{", s[b + 1:])
+    if not m2:
+        raise Broken("src/state.rs: cannot find the database-creation branch")
+    c, d = block(b + 1)
+    body = s[c:d]
+    m = re.search(r"transaction_with_behavior\(\s*TransactionBehavior::(\w+)", body)
+    if m:
+        mode = m.group(1)
+    elif re.search(r"db\.transaction\(\)", body):
+        mode = "Deferred"
     else:
-        m = re.search(r"helpers::unlink\(&dbfile\).*?transaction_with_behavior\(\s*TransactionBehavior::(\w+)", s, re.S)
-        if not m:
-            raise Broken("src/state.rs: cannot find the database-creation transaction")
-        out.append(("state.rs:init:create_db", m.group(1)))
+        raise Broken("src/state.rs: cannot find the database-creation transaction")
+    q = body.find("query_row(")
+    w = body.find("create_schema(")
+    if w < 0:
+        raise Broken("src/state.rs: the database-creation branch does not create the schema")
+    PATTERN["state.rs:init:create_db"] = "RW" if 0 <= q < w else "W"
+    out.append(("state.rs:init:create_db", mode))
     files = ["src/builder.rs"] + sorted("src/bin/redo/" + f for f in os.listdir(os.path.join(REPO, "src/bin/redo")) if f.endswith(".rs"))
     for f in files:
         s = strip_hooks(read(f))
